@@ -54,6 +54,7 @@ type Opts struct {
 	Opt, Lint  bool
 	Sw         map[string]string
 	LmPath     string
+	LmOn       bool   // line markers requested although no input path is given (stdin)
 	Cfg        string // autovar spec "name=VAR,name=#pos"; "" = the repository's command_config.json
 	FontSpec   string // "" = the repository's font_config.json; else "default\tfonts" spec (see FontSpecOf)
 	CliFont    string
@@ -92,7 +93,7 @@ func E2E(src string, o Opts) Case {
 	if o.Lint {
 		sw = ""
 	}
-	return Case{"CASE", []string{b01(o.Opt), b01(o.Lint), sw, Hex(o.LmPath), cfgOrDefault(o.Cfg), o.FontSpec, o.CliFont, fmt.Sprint(o.CliMaxLen), o.Expect, Hex(src)}}
+	return Case{"CASE", []string{b01(o.Opt), b01(o.Lint), sw, b01(o.LmOn || o.LmPath != "") + ":" + Hex(o.LmPath), cfgOrDefault(o.Cfg), o.FontSpec, o.CliFont, fmt.Sprint(o.CliMaxLen), o.Expect, Hex(src)}}
 }
 
 var defaultCfgSpec string
@@ -279,7 +280,8 @@ func errFields(e error) string {
 func runCompile(f []string) string {
 	opt, lint := f[0] == "1", f[1] == "1"
 	sw := parseSw(f[2])
-	lmpath := Unhex(f[3])
+	lmOn := strings.HasPrefix(f[3], "1:")
+	lmpath := Unhex(strings.TrimPrefix(strings.TrimPrefix(f[3], "1:"), "0:"))
 	cfg := cfgOf(f[4])
 	fpath := fontPath(f[5])
 	clifont := f[6]
@@ -297,7 +299,7 @@ func runCompile(f []string) string {
 		if e != nil {
 			return errFields(e)
 		}
-		o, e := emitter.New(prog, opt, lmpath != "", lmpath).Emit()
+		o, e := emitter.New(prog, opt, lmOn, lmpath).Emit()
 		if e != nil {
 			return errFields(e)
 		}
@@ -349,7 +351,7 @@ func runFmt(f []string) string {
 func runMeta(f []string) string {
 	// fields: sw hexa hexb ; both compiled with optimize on, no markers, repo configs
 	one := func(hexsrc string) string {
-		r := runCompile([]string{"1", "0", f[0], "", DefaultCfgSpec(), "", "", "0", "", hexsrc})
+		r := runCompile([]string{"1", "0", f[0], "0:", DefaultCfgSpec(), "", "", "0", "", hexsrc})
 		p := strings.SplitN(r, "\t", 2)
 		switch p[0] {
 		case "OK":
